@@ -10,9 +10,15 @@
    keys chosen so that their FNV-1 hashes realise the model's home slots,
    (b) as #define/#undef/-D/-U histories through `chibicc -E`.
    Longer histories across rehashes come from TLC -simulate at INIT_SIZE 16.
-3. Trace validation: H1 events of real compiler runs against DictTrace.tla.
+   (c) MacroTable.tla: the table of Macro objects - user names, predefined static names and
+   handler-based dynamic names under #define / #undef / #include of guarded headers / uses;
+   (d) IncMemo.tla: the include memo of search_include_paths - colliding header names written
+   in several spellings, present in different search directories.  Both are model-checked
+   (each with controls TLC must reject) and their histories replayed through `chibicc -E`.
+3. Trace validation: H1 events of real compiler runs (macro histories, include histories,
+   test/*.c) against DictTrace.tla.
 """
-import glob, json, os, subprocess
+import glob, json, os, re, subprocess
 import vt
 from vt import Infra
 
@@ -169,74 +175,350 @@ def replay_macros(ctx, tree, behaviours, trace_to=None):
     ctx.cov["traces_validated_against_impl"] += len(work)
 
 
+# ------------------------------------------- running the compiler under test, thousands of times
+def run_guarded(cmd, timeout=20, mem_gb=4, env=None):
+    """The protections of vt.run_limited (own process group killed as a whole on timeout - the driver's cc1 child
+    dies with it -, RLIMIT_AS and RLIMIT_CPU) without a preexec_fn: the limits are set by prlimit(1), the session
+    by start_new_session, so that Python can vfork.  With the check's heap a preexec_fn fork costs ~30 ms per
+    process (measured: 300 runs 9.4 s against 1.3 s), which the ~2,000 replays of the quick tier cannot afford."""
+    import shutil, signal
+    if not shutil.which("prlimit"):
+        raise Infra("prlimit(1) not found (util-linux)")
+    p = subprocess.Popen(["prlimit", "--as=%d" % (mem_gb << 30), "--cpu=%d" % (timeout + 5), "--"] + cmd, stdout=subprocess.PIPE,
+                         stderr=subprocess.PIPE, text=True, errors="replace", start_new_session=True, env=env)
+    try:
+        out, err = p.communicate(timeout=timeout)
+    except subprocess.TimeoutExpired:
+        try:
+            os.killpg(p.pid, signal.SIGKILL)
+        except ProcessLookupError:
+            pass
+        out, err = p.communicate()
+        return subprocess.CompletedProcess(cmd, -999, out, err)
+    return subprocess.CompletedProcess(cmd, p.returncode, out, err)
+
+
+# ------------------------------------------- TLC runs of the small models, in the background
+class Jobs:
+    """The model checks, sensitivity controls and generators of MacroTable.tla and IncMemo.tla are small
+    (seconds, 2 workers); they are started when the check starts and run beside the HashMap.tla phases.
+    Results are consumed (counted, judged) by the main thread only."""
+
+    def __init__(self, ctx, parallel=True):
+        import concurrent.futures
+        self.ctx, self.f = ctx, {}
+        self.ex = concurrent.futures.ThreadPoolExecutor(3) if parallel else None
+
+    def start(self, key, module, cfg, **kw):
+        kw.update(count=False, workers=2, heap="2g")
+        if self.ex:
+            self.f[key] = self.ex.submit(self.ctx.tlc, "hash", module, cfg, **kw)
+        else:
+            self.f[key] = (module, cfg, kw)
+        return key
+
+    def result(self, key):
+        f = self.f.pop(key)
+        return f.result() if self.ex else self.ctx.tlc("hash", f[0], f[1], **f[2])
+
+    def control(self, key, what):
+        if self.result(key).ok:
+            raise Infra("sensitivity control failed: TLC accepts " + what)
+
+    def checked(self, key, module, what):
+        """a generator / model-checking run: counted; a counterexample is a finding about the design"""
+        res = self.result(key)
+        self.ctx.cov["states"] += res.distinct
+        self.ctx.cov["transitions"] += res.generated
+        if not res.ok:
+            p = self.ctx.replay_dir("tlc-%s-%s" % (module, key))
+            open(p + "/counterexample.txt", "w").write(res.trace_text())
+            self.ctx.report("tlc:%s:%s:%s" % (module, key, res.violated), what, p)
+        return res
+
+
+def mt_shapes(q):
+    """(user names, predefined static names, predefined dynamic names), stride of the quick/thorough subsample"""
+    return (((2, 0, 0), 48), ((1, 1, 1), 160)) if q else (((3, 0, 0), 3), ((1, 1, 1), 1))
+
+
+def start_models(ctx, jobs, q, only=None):
+    """start every TLC run of MacroTable.tla and IncMemo.tla (configs are written by the calling thread)"""
+    c = lambda base, **kw: ctx.cfg("hash", base, **kw)
+    if only in (None, "mtab"):
+        jobs.start("ctl-StaleGuard", "MacroTable", c("MacroTable.cfg", NK=1, NP=0, ND=1, StaleGuard=True))
+        jobs.start("ctl-KeepHandler", "MacroTable", c("MacroTable.cfg", NK=1, NP=0, ND=1, KeepHandler=True))
+        for shape, _ in mt_shapes(q):
+            out = os.path.join(ctx.scratch, "mt-%d%d%d.ndjson" % shape)
+            jobs.start("gen-%d%d%d" % shape, "MacroTable", c("MacroTable.cfg", NK=shape[0], NP=shape[1], ND=shape[2], Emit=True), env=dict(OUT=out))
+    if only in (None, "incmemo"):
+        jobs.start("ctl-KeyByRef", "IncMemo", c("IncMemo.cfg", KeyByRef=True))
+        jobs.start("gen-im", "IncMemo", c("IncMemo.cfg", MaxLen=2 if q else 3, Emit='"all"'), env=dict(OUT=os.path.join(ctx.scratch, "im.ndjson")))
+        jobs.start("sim-im", "IncMemo", c("IncMemo.cfg", NDir=3, NN=10, MaxLen=48, AllWorlds=False, Emit='"last"'),
+                   env=dict(OUT=os.path.join(ctx.scratch, "imsim.ndjson")), simulate=12 if q else 200, depth=49,
+                   extra=["-seed", str(ctx.seed + 1)])
+
+
 # ------------------------------------------- macro table with guarded headers
 FDEF = {4: "(a,b) a - b", 5: "(b,a) a - b", 6: "(a,b) b - a"}
-PROBE = {0: "undef", 1: "v1(5,3)", 2: "v2(5,3)", 3: "v3(5,3)", 4: "5-3", 5: "3-5", 6: "3-5"}
+APPLIED = {1: "v1(5,3)", 2: "v2(5,3)", 3: "v3(5,3)", 4: "5-3", 5: "3-5", 6: "3-5"}
+# predefined names of MacroTable.tla.  Static ones: names every x86-64 Linux compiler predefines with the same
+# replacement list (gcc agrees), so "untouched = initial meaning" is judged without quoting init_macros.
+PRE_NAMES = [("__x86_64__", "1"), ("__LP64__", "1"), ("__linux__", "1"), ("unix", "1"), ("__SIZEOF_INT__", "4"),
+             ("__SIZEOF_POINTER__", "8"), ("__ELF__", "1")]
+# dynamic ones: the five handler-based builtins; what a use shows is computed from the place of the use
+DYN_NAMES = ["__COUNTER__", "__LINE__", "__FILE__", "__BASE_FILE__", "__TIMESTAMP__"]
+MT_PRE, MT_DYN = 7, 8
 
 
 def defline(n, v):
     return "#define %s%s" % (n, FDEF[v]) if v in FDEF else "#define %s v%d" % (n, v)
 
 
-def replay_macrotable(ctx, tree, q):
-    """MacroTable.tla: #define / #undef / #include of guarded headers; the re-inclusion shortcut (guard memo +
-    macro table) must never change the emitted text or the final macro table."""
-    cfg = ctx.cfg("hash", "MacroTable.cfg", NK=2 if q else 3)
-    ctx.tlc_expect_ok("hash", "MacroTable", cfg, "include-guard shortcut changes the text of a define/undef/include history", workers=2, heap="2g")
-    ctl = ctx.tlc("hash", "MacroTable", ctx.cfg("hash", "MacroTable.cfg", StaleGuard=True), workers=2, count=False, heap="2g")
-    if ctl.ok:
-        raise Infra("sensitivity control failed: TLC accepts a guard shortcut that trusts an #undef'd guard")
-    out = os.path.join(ctx.scratch, "mt.ndjson")
-    g = ctx.tlc("hash", "MacroTable", ctx.cfg("hash", "MacroTable.cfg", NK=2 if q else 3, Emit=True), env=dict(OUT=out), workers=2, heap="2g")
+def mt_names(nk, np_, nd, i):
+    """real names of the model's keys for case number i (user names collide in the table; the predefined
+    names rotate with the case number over the whole list)"""
+    r = ((i * 2654435761) % 2 ** 32) >> 8          # spread: the strides of the subsample must not select one name
+    return ([key_name(k + 1, 5) for k in range(nk)] + [PRE_NAMES[(r + k) % len(PRE_NAMES)][0] for k in range(np_)]
+            + [DYN_NAMES[(r // 7 + k) % len(DYN_NAMES)] for k in range(nd)])
+
+
+def mt_case(shape, i, hist, eout, fin, path):
+    """One history of MacroTable.tla as (options, file text, expected lines as a function of the file's mtime).
+    Odd case numbers put the longest prefix of object-like definitions / undefinitions on the command line
+    (-DN=v / -UN, every fourth as two arguments -D N=v / -U N)."""
+    nk, np_, nd = shape
+    names = mt_names(nk, np_, nd, i)
+    ncmd = 0
+    if i % 2:
+        while ncmd < len(hist) and (hist[ncmd][0] == "undef" or (hist[ncmd][0] == "def" and hist[ncmd][2] in (1, 2))):
+            ncmd += 1
+    opts, lines, uline = [], [], {}
+    for j, o in enumerate(hist):
+        n = names[o[1] - 1]
+        if j < ncmd:
+            a = "-D%s=v%d" % (n, o[2]) if o[0] == "def" else "-U" + n
+            opts += [a[:2], a[2:]] if i % 4 == 3 else [a]
+        elif o[0] == "use":
+            lines.append("USE%d_ %s(5,3)" % (j + 1, n))
+            uline[j + 1] = len(lines)
+        else:
+            lines.append(defline(n, o[2]) if o[0] == "def" else "#undef " + n if o[0] == "undef" else '#include "h%d.h"' % o[1])
+    pline = {}
+    for k in range(len(names)):
+        lines += ["#ifdef " + names[k], "PROBE%d_ %s(5,3)" % (k + 1, names[k]), "#else", "PROBE%d_ undef" % (k + 1), "#endif"]
+        pline[k + 1] = len(lines) - 3
+
+    def means(k, v, n, line, mtime):
+        name = names[k - 1]
+        if v == 0:
+            return name + "(5,3)"
+        if v == MT_PRE:
+            return dict(PRE_NAMES)[name] + "(5,3)"
+        if v == MT_DYN:
+            return {"__COUNTER__": str(n), "__LINE__": str(line), "__FILE__": '"%s"' % path, "__BASE_FILE__": '"%s"' % path,
+                    "__TIMESTAMP__": '"%s"' % mtime.replace(" ", "")}[name] + "(5,3)"
+        return APPLIED[v]
+
+    def expected(mtime):
+        exp, nuse = [], 0
+        for e in eout:
+            if e["t"] == "G":
+                exp.append("GUARD%d_" % e["k"])
+            else:
+                j = [x for x in sorted(uline)][nuse]
+                nuse += 1
+                exp.append("USE%d_" % j + means(e["k"], e["v"], e["n"], uline[j], mtime))
+        for k in range(1, len(names) + 1):
+            v = fin[k - 1]["v"]
+            exp.append("PROBE%d_undef" % k if v == 0 else "PROBE%d_" % k + means(k, v, fin[k - 1]["n"], pline[k], mtime))
+        return exp
+    return opts, "\n".join(lines) + "\n", expected, names
+
+
+def mt_run(cmd, opts, f):
+    import time
+    p = run_guarded(cmd + ["-E"] + opts + [f])
+    # the token stream, cut at the markers: how the output is divided into lines is not this property's business
+    got = "".join("".join(l.split()) for l in p.stdout.splitlines() if not l.startswith("#"))
+    got = [x for x in re.split(r"(?=(?:PROBE|USE|GUARD)\d+_)", got) if x]
+    return p.returncode, got, time.ctime(os.stat(f).st_mtime)
+
+
+def mt_generate(ctx, jobs, shape, what):
+    """all histories of the complete graph of MacroTable.tla for one shape (NK, NP, ND) + their one-step extensions;
+    the generating run checks the invariants as well"""
+    out = os.path.join(ctx.scratch, "mt-%d%d%d.ndjson" % shape)
+    jobs.checked("gen-%d%d%d" % shape, "MacroTable", what)
     rows = vt.read_ndjson(out)
-    cases = []
-    for r in rows:
-        cases.append((r["hist"], r["out"], r["fin"]))
-        for n in r["nx"]:
-            cases.append((r["hist"] + [n["op"]], n["out"], n["fin"]))
+    os.unlink(out)
     seen, uniq = set(), []
-    for c in cases:
-        k = json.dumps(c[0])
-        if k not in seen:
-            seen.add(k)
-            uniq.append(c)
+    for r in rows:
+        for hist, eout, fin in [(r["hist"], r["out"], r["fin"])] + [(r["hist"] + [n["op"]], n["out"], n["fin"]) for n in r["nx"]]:
+            k = json.dumps(hist)
+            if k not in seen:
+                seen.add(k)
+                uniq.append((hist, eout, fin))
     if len(uniq) < 50:
-        raise Infra("MacroTable generator wrote only %d histories" % len(uniq))
-    uniq = vt.subsample(uniq, ctx.seed, 24 if q else 2)
-    d = ctx.tmp("mtab")
-    nk = len(uniq[0][2])
-    names = [key_name(k + 1, 5) for k in range(nk)]          # colliding names again
-    for k in range(nk):
-        open("%s/h%d.h" % (d, k + 1), "w").write("#ifndef %s\n#define %s v3\nG%d\n#endif\n" % (names[k], names[k], k + 1))
+        raise Infra("MacroTable generator wrote only %d histories for shape %s" % (len(uniq), shape))
+    uniq.sort(key=lambda c: json.dumps(c[0]))          # case numbers must not depend on the order in which TLC's workers wrote
+    return uniq
+
+
+def replay_macrotable(ctx, tree, q, jobs, cmd=None):
+    """MacroTable.tla: #define / #undef / #include of guarded headers / uses, over user names and predefined
+    (static and dynamic) names; neither the re-inclusion shortcut (guard memo + macro table) nor what the table
+    held for a name before may change the emitted text or the final macro table."""
+    jobs.control("ctl-StaleGuard", "a guard shortcut that trusts an #undef'd guard")
+    jobs.control("ctl-KeepHandler", "a redefinition that keeps the handler of a dynamic builtin")
+    total = 0
+    for shape, stride in mt_shapes(q):
+        uniq = mt_generate(ctx, jobs, shape, "the macro table (guard shortcut, entries with handlers) changes the text of a define/undef/include/use history")
+        total += run_mt_cases(ctx, tree, shape, vt.subsample(list(enumerate(uniq)), ctx.seed, stride), cmd)
+    return total
+
+
+def run_mt_cases(ctx, tree, shape, cases, cmd=None):
+    """replay numbered histories (i, (history, expected events, expected final table)) of one shape"""
+    sd = "%s/s%d%d%d" % ((ctx.tmp("mtab"),) + tuple(shape))
+    os.makedirs(sd, exist_ok=True)
+    names = mt_names(shape[0], 0, 0, 0)
+    for k in range(shape[0]):
+        open("%s/h%d.h" % (sd, k + 1), "w").write("#ifndef %s\n#define %s v3\nGUARD%d_\n#endif\n" % (names[k], names[k], k + 1))
 
     def one(t):
         i, (hist, eout, fin) = t
-        lines = []
-        for o in hist:
-            n = names[o[1] - 1]
-            lines.append(defline(n, o[2]) if o[0] == "def" else "#undef " + n if o[0] == "undef"
-                         else '#include "h%d.h"' % o[1])
-        exp = ["G%d" % k for k in eout]
-        for k in range(nk):
-            lines += ["#ifdef " + names[k], "P%d %s(5,3)" % (k + 1, names[k]), "#else", "P%d undef" % (k + 1), "#endif"]
-            exp.append("P%d%s" % (k + 1, PROBE[fin[k]]))
-        f = "%s/t%d.c" % (d, i)
-        open(f, "w").write("\n".join(lines) + "\n")
-        p = vt.run_limited([tree + "/chibicc", "-E", f], timeout=20)
-        got = ["".join(l.split()) for l in p.stdout.splitlines() if l.strip() and not l.startswith("#")]
+        f = "%s/t%d.c" % (sd, i)
+        opts, txt, expected, nm = mt_case(shape, i, hist, eout, fin, f)
+        open(f, "w").write(txt)
+        rc, got, mtime = mt_run(cmd or [tree + "/chibicc"], opts, f)
+        exp = expected(mtime)
+        gcc = None
+        if (rc != 0 or got != exp) and cmd is None:            # the oracle is validated on the vector before it judges
+            grc, ggot, _ = mt_run(["cc"], opts, f)
+            gcc = (grc == 0 and ggot == exp)
         os.unlink(f)
-        return hist, exp, got, p.returncode, "\n".join(lines)
+        return i, hist, eout, fin, opts, txt, exp, got, rc, gcc, nm
 
-    for hist, exp, got, rc, txt in vt.pmap(one, list(enumerate(uniq))):
-        ctx.note_case("mtab:%s" % hist, nontrivial=len(hist) >= 2)
-        if rc != 0 or got != exp:
-            kinds = "+".join(sorted(set(o[0] for o in hist)))
-            ctx.report("macrotable:%s:%s" % (kinds, "text" if [x for x in got if x.startswith("G")] != [x for x in exp if x.startswith("G")] else "table"),
-                       "history %s: expected %s got %s (rc=%s)" % (hist, exp, got, rc),
-                       case=dict(kind="mtab", hist=hist, exp=exp, got=got, text=txt))
-    ctx.cov["traces_validated_against_impl"] += len(uniq)
-    ctx.sample(dict(kind="define/undef/include history", history=uniq[len(uniq) // 2][0], expected_text=uniq[len(uniq) // 2][1]))
-    return len(uniq)
+    for i, hist, eout, fin, opts, txt, exp, got, rc, gcc, nm in vt.pmap(one, cases):
+        ctx.note_case("mtab:%s:%d:%s" % (shape, i, hist), nontrivial=len(hist) >= 2)
+        if rc == 0 and got == exp:
+            continue
+        if gcc is False:
+            ctx.oracle_disagreements += 1
+            continue
+        kinds = "+".join(sorted(set(o[0] for o in hist)))
+        cls = "text" if [x for x in got if x.startswith("G")] != [x for x in exp if x.startswith("G")] else "table"
+        bad = [re.match(r"(PROBE|USE)(\d+)_", e) for e, g in zip(exp, got) if e != g and e[0] in "PU"]
+        sig = "macrotable:%s:%s" % (kinds, cls)
+        if cls == "table" and bad:                              # which kind of name shows the wrong meaning, and after what
+            k = int(bad[0].group(2)) if bad[0].group(1) == "PROBE" else hist[int(bad[0].group(2)) - 1][1]
+            last = [o for o in hist if o[1] == k and o[0] != "use"][-1:]
+            if k > shape[0]:
+                sig = "macrotable:%s:%s" % ("predefined" if k <= shape[0] + shape[1] else "dynamic",
+                                            "untouched" if not last else "after-undef" if last[0][0] == "undef" else "after-define")
+        ctx.report(sig,
+                   "history %s over %s (options %s): expected %s got %s (rc=%s)" % (hist, nm, opts, exp, got, rc),
+                   case=dict(kind="mtab", shape=list(shape), i=i, hist=hist, eout=eout, fin=fin, opts=opts, exp=exp, got=got, text=txt))
+    ctx.cov["traces_validated_against_impl"] += len(cases)
+    if cases:
+        i, (hist, eout, fin) = cases[len(cases) // 2]
+        ctx.sample(dict(kind="define/undef/include/use history", names=mt_names(*shape, i), history=hist,
+                        expected_events=eout, final_table=fin))
+    return len(cases)
+
+
+# ------------------------------------------- include memo table (IncMemo.tla)
+SPELL = {"p": "%s", "d": "./%s", "dd": "././%s", "u": "s/../%s"}
+
+
+def im_names(nn):
+    """header names whose FNV-1 hashes collide (same home slot up to capacity 2^16) and that have the same length"""
+    pool = [n for n in NAMES["3"] if len(n) == 7]
+    if len(pool) < nn:
+        raise Infra("name pool too small for %d colliding header names" % nn)
+    return pool[:nn]
+
+
+def replay_incmemo(ctx, tree, q, jobs, trd, cmd=None):
+    """IncMemo.tla: #include histories over names written in several spellings, found in different search
+    directories; every directive must include the copy the search list designates (the memo never answers for a
+    name that was not stored).  Every k-th run also records the H1 events of the memo table for DictTrace."""
+    jobs.control("ctl-KeyByRef", "a memo table whose keys alias a scratch buffer")
+    out, out2 = os.path.join(ctx.scratch, "im.ndjson"), os.path.join(ctx.scratch, "imsim.ndjson")
+    jobs.checked("gen-im", "IncMemo", "the include memo changes which file a directive includes")
+    rows = vt.read_ndjson(out)
+    if len(rows) < 1000:
+        raise Infra("IncMemo generator wrote only %d histories" % len(rows))
+    rows.sort(key=lambda c: json.dumps([c["pres"], c["hist"]]))      # numbering independent of TLC's workers
+    cases = vt.subsample(rows, ctx.seed, 60 if q else 25)
+    del rows
+    # long histories over many names: the memo table grows 16 -> 32 -> 64 while it is consulted
+    s = jobs.result("sim-im")
+    if not s.ok:
+        ctx.report("tlc:IncMemo:simulate:%s" % s.violated, "simulation of long include histories violated " + str(s.violated),
+                   case=dict(out=s.trace_text()[:3000]))
+    sim = vt.read_ndjson(out2)
+    if not sim:
+        raise Infra("IncMemo simulation wrote no history")
+    return run_im_cases(ctx, tree, cases + sim, trd, cmd)
+
+
+def run_im_cases(ctx, tree, cases, trd, cmd=None):
+    d = ctx.tmp("incmemo")
+    worlds = {}
+
+    def world(pres):
+        """the directory tree for one presence pattern (made once)"""
+        key = json.dumps(pres)
+        if key not in worlds:
+            w = "%s/w%d" % (d, len(worlds))
+            names = im_names(len(pres))
+            for n, row in enumerate(pres):
+                for j, there in enumerate(row):
+                    os.makedirs("%s/d%d/s" % (w, j + 1), exist_ok=True)
+                    if there:
+                        open("%s/d%d/%s" % (w, j + 1, names[n]), "w").write("H%d_%d\n" % (n + 1, j + 1))
+            os.makedirs(w + "/src", exist_ok=True)
+            worlds[key] = w
+        return worlds[key]
+    for c in cases:
+        world(c["pres"])
+
+    def one(t):
+        i, c = t
+        w = world(c["pres"])
+        names = im_names(len(c["pres"]))
+        f = "%s/src/t%d.c" % (w, i)
+        txt = "".join("#include %s\n" % (("<%s>" if fo == "A" else '"%s"') % (SPELL[sp] % names[n - 1])) for n, sp, fo in c["hist"])
+        open(f, "w").write(txt)
+        opts = ["-I%s/d%d" % (w, j + 1) for j in range(len(c["pres"][0]))]
+        env = dict(os.environ)
+        if cmd is None and (i % 16 == 0 or len(c["hist"]) > 8):
+            env["CHIBICC_VERIF_TRACE"] = "%s/im%d.trace" % (trd, i)
+        p = run_guarded((cmd or [tree + "/chibicc"]) + ["-E"] + opts + [f], env=env)
+        got = ["".join(l.split()) for l in p.stdout.splitlines() if l.strip() and not l.startswith("#")]
+        exp = ["H%d_%d" % (n, dd) for n, dd in c["out"]]
+        gcc = None
+        if (p.returncode != 0 or got != exp) and cmd is None:
+            g = run_guarded(["cc", "-E"] + opts + [f])
+            gcc = g.returncode == 0 and ["".join(l.split()) for l in g.stdout.splitlines() if l.strip() and not l.startswith("#")] == exp
+        os.unlink(f)
+        return c, txt, exp, got, p.returncode, p.stderr[-300:], gcc
+
+    for c, txt, exp, got, rc, err, gcc in vt.pmap(one, list(enumerate(cases))):
+        ctx.note_case("incmemo:%s:%s" % (c["pres"], c["hist"]), nontrivial=len(c["hist"]) >= 2)
+        if rc == 0 and got == exp:
+            continue
+        if gcc is False:
+            ctx.oracle_disagreements += 1
+            continue
+        ctx.report("incmemo:%s" % ("failed" if rc != 0 else "wrong-copy"),
+                   "include history %s with presence %s: expected %s got %s (rc=%s %s)" % (c["hist"], c["pres"], exp, got, rc, err),
+                   case=dict(kind="incmemo", beh=c, text=txt, exp=exp, got=got))
+    ctx.cov["traces_validated_against_impl"] += len(cases)
+    ctx.sample(dict(kind="include history", presence=cases[0]["pres"], history=cases[0]["hist"], expected=cases[0]["out"]))
+    return len(cases)
 
 
 # -------------------------------------------------------- trace validation
@@ -293,6 +575,8 @@ def run(ctx):
     q = ctx.quick
     tree = ctx.build()
     ctx.phase("build done")
+    jobs = Jobs(ctx)
+    start_models(ctx, jobs, q)
     # 1. exhaustive refinement check of the design
     for (nk, hmod) in ([] if q else [(3, 8), (4, 4)]):      # quick: the generation run below checks the same invariants
         cfg = ctx.cfg("hash", "HashMap_mc.cfg", NK=nk, HMod=hmod, MaxCap=16 if nk < 4 else 32)
@@ -362,8 +646,10 @@ def run(ctx):
     replay_macros(ctx, tree, mb, trace_to=(trd, 200 if q else 100))
     ctx.sample(dict(kind="macro history", options=macro_case(mb[-1], "cmdline")[0], file=macro_case(mb[-1], "cmdline")[1][:200]))
     ctx.phase("macro done")
-    nmt = replay_macrotable(ctx, tree, q)
+    nmt = replay_macrotable(ctx, tree, q, jobs)
     ctx.phase("macrotable done")
+    nim = replay_incmemo(ctx, tree, q, jobs, trd)
+    ctx.phase("incmemo done")
     # 3. trace validation of what the compiler's own tables did
     validate_traces(ctx, sorted(glob.glob(trd + "/*.trace")), "macro-histories")
     srcs = sorted(glob.glob(tree + "/test/*.c"))
@@ -374,11 +660,13 @@ def run(ctx):
     ctx.phase("traces done")
     ctx.assumptions += ["Level I model (HashMap.tla) is a hand transcription of hashmap.c; the replay and trace checks judge the real code",
                         "FNV-1 key pool (harness/data/fnv_names.json) realises home slots only for the tree's current hash function; a changed hash only makes the replay less targeted",
-                        "dictionary values are compared as opaque pointer tags"]
+                        "dictionary values are compared as opaque pointer tags",
+                        "MacroTable replay: the seven predefined static names used have the replacement list every x86-64 Linux compiler gives them; __TIMESTAMP__ is the ctime of the file's mtime in the local time zone; output is compared as a token stream (line division is C19's)",
+                        "IncMemo replay: the including file's directory holds no header, so the quote form is decided by the search list as well; header names with // are not generated (6.4.7p3)"]
     return ctx.finish(
-        rule="behaviour = one transition of HashMap.tla's complete state graph (shortest history + one more operation) or one prefix of a simulated long history, replayed on the real hashmap.c / through chibicc -E; non-trivial = at least 2 operations; distinct = distinct (collision pattern, operation sequence, replay mode)",
+        rule="behaviour = one transition of HashMap.tla's complete state graph (shortest history + one more operation) or one prefix of a simulated long history, replayed on the real hashmap.c / through chibicc -E; or one history of MacroTable.tla's / IncMemo.tla's complete graph (+ one more operation; + simulated long include histories) replayed through chibicc -E; non-trivial = at least 2 operations; distinct = distinct (collision pattern / name assignment / file system, operation sequence, replay mode)",
         exhaustive=True,
-        extra=dict(graph_transitions_replayed=nbeh, extended_transitions_replayed=npairs, long_history_prefixes=nsim, macro_histories=3 * len(mb), guarded_include_histories=nmt, full_table_transitions=nfull))
+        extra=dict(graph_transitions_replayed=nbeh, extended_transitions_replayed=npairs, long_history_prefixes=nsim, macro_histories=3 * len(mb), guarded_include_histories=nmt, include_memo_histories=nim, full_table_transitions=nfull))
 
 
 def replay(ctx, path):
@@ -390,6 +678,13 @@ def replay(ctx, path):
         replay_inproc(ctx, exe, [c["beh"]], c["tag"])
     elif c.get("kind") == "macro":
         replay_macros(ctx, tree, [c["beh"]])
+    elif c.get("kind") == "mtab":
+        run_mt_cases(ctx, tree, tuple(c["shape"]), [(c["i"], (c["hist"], c["eout"], c["fin"]))])
+    elif c.get("kind") == "incmemo":
+        trd = ctx.tmp("rtrace")
+        run_im_cases(ctx, tree, [c["beh"]], trd)
+        if glob.glob(trd + "/*.trace"):
+            validate_traces(ctx, sorted(glob.glob(trd + "/*.trace")), "macro-histories")
     elif c.get("kind") == "trace":
         print("trace replays are re-validated by: TRACE=%s/trace.ndjson tlc -workers 1 -config DictTrace.cfg DictTrace.tla" % path)
     elif c.get("kind") == "tlc":
